@@ -346,6 +346,29 @@ def gen_oracle_case(rng: random.Random, default_interval: bool) -> dict:
     plan: list[list] = []
     paused_until = -1
     mode = None
+    # run control between / across runs: Stop + Start, Restart (a second run of the same method: every scope and
+    # block clock starts again at 0), and overlapping Hold / Pause periods
+    control: dict[int, list[str]] = {}
+    y = rng.random()
+    if y < 0.12:
+        t0 = rng.randrange(15, 45)
+        control[t0] = ["Stop"]
+        control[t0 + rng.randrange(3, 8)] = ["Start"]
+        stats = dict(stats, stop_start=1)
+    elif y < 0.2:
+        control[rng.randrange(15, 45)] = ["Restart"]
+        stats = dict(stats, restart=1)
+    elif y < 0.3:
+        t0 = rng.randrange(8, 40)
+        a, b = rng.choice([("Hold", "Pause"), ("Pause", "Hold")])
+        t1 = t0 + rng.randrange(1, 4)
+        t2 = t1 + rng.randrange(2, 6)
+        t3 = t2 + rng.randrange(2, 6)
+        first, second = rng.choice([(b, a), (a, b)])          # which one is released first
+        control[t0], control[t1] = [a], [b]
+        control[t2] = ["Un" + first.lower()]
+        control[t3] = ["Un" + second.lower()]
+        stats = dict(stats, overlapping_hold_pause=1)
     total = Fraction(0)
     flow = Fraction(rng.choice([1, 1, 2]), 8)         # litres per tick
     for t in range(n_ticks):
@@ -358,7 +381,9 @@ def gen_oracle_case(rng: random.Random, default_interval: bool) -> dict:
             flow = Fraction(rng.choice([0, 1, 1, 2, 4]), 8)
         total += flow
         acts.append(["tag", "Totalizer", float(total)])
-        if mode is None and rng.random() < 0.03 and t > 3:
+        if t in control:
+            acts += [["user", c] for c in control[t]]
+        elif mode is None and rng.random() < 0.03 and t > 3 and not any(abs(t - x) < 14 for x in control):
             mode = rng.choice(["Pause", "Hold"])
             paused_until = t + rng.randrange(2, 12)
             acts.append(["user", mode])
@@ -413,12 +438,31 @@ def _in_block(snap) -> bool:
     return snap["tags"].get("Block") not in (None, "")
 
 
-def _clock(snap) -> Fraction | None:
+def _shown_clock(snap) -> Fraction | None:
     """The clock the engine itself shows for the current Base unit and Block tag."""
     tags = _clock_tags(str(snap["tags"].get("Base")))
     if tags is None or tags[0] not in snap["tags"] or tags[1] not in snap["tags"]:
         return None
     return dec(snap["tags"][tags[1] if _in_block(snap) else tags[0]])
+
+
+def _clock(snap) -> Fraction | None:
+    """The clock of the current scope: for s / min / h the oracle's own ledger of elapsed running time (block clock
+    if the Block tag is set, else scope clock); for volume / CV units the accumulator tags."""
+    if str(snap["tags"].get("Base")) in TIME_UNITS and "_ledger" in snap:
+        return dec(snap["_ledger"]["block" if _in_block(snap) else "scope"])
+    return _shown_clock(snap)
+
+
+def _clock_disagreement(snap) -> str | None:
+    if str(snap["tags"].get("Base")) not in TIME_UNITS or "_ledger" not in snap:
+        return None
+    shown, own = _shown_clock(snap), _clock(snap)
+    if shown is None or own is None or abs(shown - own) <= Fraction(1, 1000000):
+        return None
+    which = "Block Time" if _in_block(snap) else "Scope Time"
+    return f"{which} shows {float(shown)} s, but the run has been Running for {float(own)} s since that " \
+           f"{'block' if _in_block(snap) else 'scope'} started in this run"
 
 
 def _factor(snap) -> Fraction | None:
@@ -479,33 +523,103 @@ def _need(obj, attr: str):
 
 
 class _Probe:
-    """Read-only view of which scope / block timer the clock tags display, at tick boundaries and at every scope /
-    block event inside a tick (listener on the engine's own emitter, called after the tags)."""
+    """The oracle's OWN ledger of the scope and block clocks, plus a record of which of them was current at tick
+    boundaries and at every scope / block event inside a tick.
+
+    A listener on the engine's emitter (called after the tags) keeps, per scope activation and per started block,
+    the sum of the tick increments of the ticks in which the run was Running since that activation in THIS run:
+    the System State tag shows Running AND no Pause / Hold that the oracle itself issued (and the engine accepted)
+    is in force.  The ledger is emptied when a run starts (Start, Restart).  Thresholds in s / min / h are judged
+    against the ledger, not against the engine's own timers; a difference between the two at judgement time is
+    reported under its own key."""
 
     def __init__(self, engine):
         from openpectus.lang.exec.events import EventListener
         self.e = engine
-        self.st = engine.tags["Scope Time"]
-        self.bt = engine.tags["Block Time"]
-        for o, a in ((self.st, "_timers"), (self.st, "_stack"), (self.bt, "_stack"), (engine, "_emitter"),
-                     (engine, "_runstate_started"), (engine, "_runstate_paused"), (engine, "_runstate_holding"),
-                     (engine, "_runstate_stopping")):
+        for o, a in ((engine, "_emitter"), (engine, "_runstate_started"), (engine, "_runstate_paused"),
+                     (engine, "_runstate_holding"), (engine, "_runstate_stopping")):
             _need(o, a)
         self.moments: list[dict] = []
         self.n_events = 0
+        self.scope_stack: list[str] = []            # node ids, activation order (as Scope Time keeps them)
+        self.scope_vals: dict[str, float] = {}
+        self.block_stack: list[list] = []           # [uid, name, value]
+        self.uid = 0
+        self.own_paused = False
+        self.own_holding = False
+        self.pending: list[str] = []
+        self.runs = 0
         probe = self
 
         class L(EventListener):
-            def _ev(self, *a):
+            def _ev(self):
                 probe.n_events += 1
                 probe.moments.append(probe.light())
-            on_block_start = on_scope_start = on_scope_activate = on_scope_end = on_start = \
-                lambda self, *a: self._ev()
 
-            def on_block_end(self, block_info, new_block_info):
+            def on_start(self, run_id):
+                probe.scope_stack, probe.scope_vals, probe.block_stack = [], {}, []
+                probe.own_paused = probe.own_holding = False
+                probe.runs += 1
                 self._ev()
 
+            def on_scope_start(self, scope_info):
+                self._ev()
+
+            def on_scope_activate(self, scope_info):
+                probe.scope_vals[scope_info.node_id] = 0.0
+                probe.scope_stack.append(scope_info.node_id)
+                self._ev()
+
+            def on_scope_end(self, scope_info):
+                probe.scope_vals.pop(scope_info.node_id, None)
+                if scope_info.node_id in probe.scope_stack:
+                    probe.scope_stack.remove(scope_info.node_id)
+                self._ev()
+
+            def on_block_start(self, block_info):
+                probe.uid += 1
+                probe.block_stack.append([probe.uid, block_info.name, 0.0])
+                self._ev()
+
+            def on_block_end(self, block_info, new_block_info):
+                if probe.block_stack:
+                    probe.block_stack.pop()
+                self._ev()
+
+            def on_tick(self, tick_time, increment_time):
+                if probe.run_is_running():
+                    for k in probe.scope_vals:
+                        probe.scope_vals[k] += increment_time
+                    for it in probe.block_stack:
+                        it[2] += increment_time
+
         _need(engine, "_emitter").add_listener(L())
+
+    # -- the oracle's own notion of "the run is Running"
+    def run_is_running(self) -> bool:
+        return str(self.e.tags["System State"].get_value()) == "Running" and not self.own_paused \
+            and not self.own_holding
+
+    def user(self, run, name: str) -> str:
+        r = run.user(name)
+        if r == "ok":
+            self.pending.append(name)
+        return r
+
+    def after_tick(self):
+        """Commands issued before a tick are executed in that tick's command phase, after the clocks were updated."""
+        for name in self.pending:
+            if name == "Pause":
+                self.own_paused = True
+            elif name == "Unpause":
+                self.own_paused = False
+            elif name == "Hold":
+                self.own_holding = True
+            elif name == "Unhold":
+                self.own_holding = False
+            elif name in ("Stop", "Restart", "Start"):
+                self.own_paused = self.own_holding = False
+        self.pending = []
 
     def running(self) -> bool:
         e = self.e
@@ -513,18 +627,20 @@ class _Probe:
                     and not e._runstate_stopping)
 
     def light(self) -> dict:
-        items = list(_need(self.bt, "_stack"))
-        for it in items:
-            _need(it, "value")
-        return {"scope": list(_need(self.st, "_stack")), "block": [id(it) for it in items],
+        return {"scope": list(self.scope_stack), "block": [it[0] for it in self.block_stack],
                 "block_tag": self.e.tags["Block"].get_value(), "base": str(self.e.tags["Base"].get_value())}
 
     def full(self) -> dict:
         m = self.light()
-        m["scope_timers"] = {k: dec(v) for k, v in _need(self.st, "_timers").items()}
-        m["block_values"] = {id(it): dec(it.value) for it in _need(self.bt, "_stack")}
-        m["block_names"] = {id(it): _need(it, "name") for it in _need(self.bt, "_stack")}
+        m["scope_timers"] = {k: dec(v) for k, v in self.scope_vals.items()}
+        m["block_values"] = {it[0]: dec(it[2]) for it in self.block_stack}
         return m
+
+    def clocks(self) -> dict:
+        """What Scope Time / Block Time should display now according to the ledger."""
+        sc = self.scope_vals.get(self.scope_stack[-1], 0.0) if self.scope_stack else 0.0
+        bl = self.block_stack[-1][2] if self.block_stack else 0.0
+        return {"scope": sc, "block": bl}
 
 
 def _in_alarm_nest(nodes, n) -> bool:
@@ -595,6 +711,7 @@ def oracle_case(case: dict, stats: dict | None = None):
     try:
         probe = _Probe(run.engine)
         snaps = [run.snapshot()]
+        snaps[0]["_ledger"] = probe.clocks()
         ran = [False]
         wait_track: dict[str, dict] = {}
         wait_execs: dict[str, int] = {}
@@ -611,12 +728,14 @@ def oracle_case(case: dict, stats: dict | None = None):
                 if act[0] == "tag":
                     run.set_tag(act[1], act[2])
                 elif act[0] == "user":
-                    run.user(act[1])
+                    probe.user(run, act[1])
             ran_k = probe.running()
             pre = probe.full()
             probe.moments = [probe.light()]
             ev0 = probe.n_events
             cur = run.tick()
+            probe.after_tick()
+            cur["_ledger"] = probe.clocks()
             probe.moments.append(probe.light())
             moments = probe.moments
             prev = snaps[-1]
@@ -645,11 +764,15 @@ def oracle_case(case: dict, stats: dict | None = None):
                         if _in_block(prev):
                             cnt("thr_start_in_block")
                         cnt("thr_start_base_" + unit)
+                        if probe.runs > 1:
+                            cnt("thr_start_in_a_later_run")
                         stale_block_accumulator = False
+                        differs = None
                         if stable:
                             ok = _reached(prev, T)
                             c = _clock(prev)
                             seen = f"clock {None if c is None else float(c)} base {unit}"
+                            differs = _clock_disagreement(prev)
                         else:
                             cands, why, blk_fresh = _allowed_clocks(n, cn, prev, cur, pre, moments)
                             if not cands:
@@ -687,6 +810,12 @@ def oracle_case(case: dict, stats: dict | None = None):
                             return fail("threshold-instruction-started-before-clock-reached-threshold", k,
                                         f"line {n['line']} ({n['name']}: {n['arg']}) threshold {n['threshold']} started in "
                                         f"tick {k}, but {seen}")
+                        if stable and differs is not None and not _in_alarm_nest(cn, n):
+                            # the start itself was in time on the ledger, but the engine's clock tag is not the
+                            # elapsed running time of the scope
+                            return fail("scope-clock-differs-from-elapsed-running-time", k,
+                                        f"line {n['line']} ({n['name']}: {n['arg']}) threshold {n['threshold']} {unit} "
+                                        f"started in tick {k}: {differs}")
                         # (2) not later than the first eligible tick (retrospective)
                         kp = next((j for j in range(k - 1, 0, -1) if ran[j]), None)
                         if kp is not None and kp >= 1 and snaps[kp].get("_stable", False):
